@@ -126,6 +126,17 @@ func H_C18_scalar() {
 			verif.Assert(verif.Eq(m["v"], s+"k"+s), "concat")
 			verif.Assert(verif.Eq(m["n"], s+"k"), "concat-skips-null")
 		}
+		// adjacent arguments that are not strings: nothing but their texts
+		m, err = oneRow(doc, "SELECT CONCAT(1, 2) AS d, CONCAT(s, 1, b, s) AS mixed, CONCAT(7) AS one, CONCAT(1, 2.5, TRUE, s) AS t3, CONCAT(b, b) AS bb FROM t")
+		verif.Assert(err == nil, "no-error")
+		if err == nil {
+			bt := "false"
+			if b {
+				bt = "true"
+			}
+			verif.Assert(verif.Eq(m["d"], "12") && verif.Eq(m["one"], "7") && verif.Eq(m["t3"], "12.5true"+s), "concat-adjacent-non-strings")
+			verif.Assert(verif.Eq(m["mixed"], s+"1"+bt+s) && verif.Eq(m["bb"], bt+bt), "concat-adjacent-non-strings")
+		}
 	case 2:
 		m, err := oneRow(doc, "SELECT CHANGETYPE(x, 'array') AS a, CHANGETYPE(s, 'STRING') AS st, CHANGETYPE(CHANGETYPE(x, 'string'), 'double') AS rt, CHANGETYPE(nul, 'double') AS n FROM t")
 		verif.Assert(err == nil, "no-error")
